@@ -127,6 +127,169 @@ func TestVerifBoundedNestingDepth(t *testing.T) {
 
 var depthCases = []string{"1", "2", "16", "1000", "100000", "500000", "2097150"}
 
+
+const unmarshalTest = `package smparser
+
+import (
+	"bytes"
+	"fmt"
+	"testing"
+
+	"github.com/fiorix/go-diameter/v4/diam"
+	"github.com/fiorix/go-diameter/v4/diam/avp"
+	"github.com/fiorix/go-diameter/v4/diam/datatype"
+	"github.com/fiorix/go-diameter/v4/diam/dict"
+)
+
+func verifListOK(l []*diam.AVP) bool {
+	for _, a := range l {
+		if a == nil {
+			return false
+		}
+	}
+	return true
+}
+func verifGroupsOK(l []*diam.AVP) bool {
+	for _, g := range l {
+		if g == nil {
+			return false
+		}
+		if ga, ok := g.Data.(*diam.GroupedAVP); ok && (ga == nil || !verifListOK(ga.AVP)) {
+			return false
+		}
+	}
+	return true
+}
+
+// The ASSUMED contract of Message.Unmarshal for the state machine's structs (contracts_verif.go of smparser), checked on
+// the real reflection code over a bounded family of messages: every presence combination of the identity, state and
+// security AVPs x up to two Acct / Auth application ids x Vendor-Specific groups of several shapes, in several orders,
+// built through the API and also after a wire round trip.
+func TestVerifBoundedUnmarshal(t *testing.T) {
+	cases, fails := 0, 0
+	fail := func(f string, a ...interface{}) { fails++; fmt.Println("BOUNDED-FAIL " + fmt.Sprintf(f, a...)) }
+	apps := [][]uint32{{}, {4}, {4, 999999}, {0xffffffff}}
+	groups := []int{0, 1, 2, 3, 4} // none, {vendor, auth}, {auth, vendor}, {vendor} only, empty group
+	for mask := 0; mask < 16; mask++ {
+		for _, acct := range apps {
+			for _, auth := range apps {
+				for _, gk := range groups {
+					for order := 0; order < 2; order++ {
+						m := diam.NewRequest(diam.CapabilitiesExchange, 0, dict.Default)
+						var tail []func()
+						if mask&1 != 0 {
+							m.NewAVP(avp.OriginHost, avp.Mbit, 0, datatype.DiameterIdentity("h"))
+						}
+						if mask&2 != 0 {
+							m.NewAVP(avp.OriginRealm, avp.Mbit, 0, datatype.DiameterIdentity("r"))
+						}
+						if mask&4 != 0 {
+							m.NewAVP(avp.OriginStateID, avp.Mbit, 0, datatype.Unsigned32(7))
+						}
+						if mask&8 != 0 {
+							m.NewAVP(avp.InbandSecurityID, avp.Mbit, 0, datatype.Unsigned32(uint32(mask)%2))
+						}
+						addApps := func() {
+							for _, id := range acct {
+								m.NewAVP(avp.AcctApplicationID, avp.Mbit, 0, datatype.Unsigned32(id))
+							}
+							for _, id := range auth {
+								m.NewAVP(avp.AuthApplicationID, avp.Mbit, 0, datatype.Unsigned32(id))
+							}
+						}
+						addGroup := func() {
+							var g *diam.GroupedAVP
+							switch gk {
+							case 0:
+								return
+							case 1:
+								g = &diam.GroupedAVP{AVP: []*diam.AVP{diam.NewAVP(avp.VendorID, avp.Mbit, 0, datatype.Unsigned32(10415)), diam.NewAVP(avp.AuthApplicationID, avp.Mbit, 0, datatype.Unsigned32(4))}}
+							case 2:
+								g = &diam.GroupedAVP{AVP: []*diam.AVP{diam.NewAVP(avp.AuthApplicationID, avp.Mbit, 0, datatype.Unsigned32(4)), diam.NewAVP(avp.VendorID, avp.Mbit, 0, datatype.Unsigned32(10415))}}
+							case 3:
+								g = &diam.GroupedAVP{AVP: []*diam.AVP{diam.NewAVP(avp.VendorID, avp.Mbit, 0, datatype.Unsigned32(10415))}}
+							case 4:
+								g = &diam.GroupedAVP{}
+							}
+							m.NewAVP(avp.VendorSpecificApplicationID, avp.Mbit, 0, g)
+						}
+						if order == 0 {
+							tail = []func(){addApps, addGroup}
+						} else {
+							tail = []func(){addGroup, addApps}
+						}
+						for _, f := range tail {
+							f()
+						}
+						msgs := []*diam.Message{m}
+						if wire, err := m.Serialize(); err == nil {
+							if m2, err := diam.ReadMessage(bytes.NewReader(wire), dict.Default); err == nil {
+								msgs = append(msgs, m2)
+							} else {
+								fail("wire round trip of a generated CER failed: %v", err)
+							}
+						}
+						for k, mm := range msgs {
+							cases++
+							cer := new(CER)
+							err := mm.Unmarshal(cer)
+							if cer.OriginStateID != nil && (cer.OriginStateID.Data == nil) {
+								fail("mask=%d k=%d: Origin-State-Id AVP without data", mask, k)
+							}
+							if err != nil {
+								continue
+							}
+							if !verifListOK(cer.AcctApplicationID) || !verifListOK(cer.AuthApplicationID) || !verifGroupsOK(cer.VendorSpecificApplicationID) {
+								fail("mask=%d k=%d: nil AVP in a list Unmarshal filled", mask, k)
+							}
+							if cer.InbandSecurityID != nil {
+								if _, ok := cer.InbandSecurityID.Data.(datatype.Unsigned32); !ok {
+									fail("mask=%d k=%d: Inband-Security-Id is %T", mask, k, cer.InbandSecurityID.Data)
+								}
+							}
+							// each tagged field holds the AVPs of that code, in message order
+							if len(cer.AcctApplicationID) != len(acct) || len(cer.AuthApplicationID) != len(auth) {
+								fail("mask=%d k=%d: %d acct / %d auth ids unmarshalled, %d / %d sent", mask, k, len(cer.AcctApplicationID), len(cer.AuthApplicationID), len(acct), len(auth))
+							}
+							for i, a := range cer.AcctApplicationID {
+								if v, ok := a.Data.(datatype.Unsigned32); !ok || uint32(v) != acct[i] || a.Code != avp.AcctApplicationID {
+									fail("mask=%d k=%d: acct id %d differs", mask, k, i)
+								}
+							}
+							for i, a := range cer.AuthApplicationID {
+								if v, ok := a.Data.(datatype.Unsigned32); !ok || uint32(v) != auth[i] || a.Code != avp.AuthApplicationID {
+									fail("mask=%d k=%d: auth id %d differs", mask, k, i)
+								}
+							}
+							if (gk != 0) != (len(cer.VendorSpecificApplicationID) == 1) {
+								fail("mask=%d k=%d gk=%d: %d vendor-specific groups", mask, k, gk, len(cer.VendorSpecificApplicationID))
+							}
+							if (mask&1 != 0) != (len(cer.OriginHost) != 0) || (mask&2 != 0) != (len(cer.OriginRealm) != 0) || (mask&4 != 0) != (cer.OriginStateID != nil) || (mask&8 != 0) != (cer.InbandSecurityID != nil) {
+								fail("mask=%d k=%d: presence of identity / state / security fields differs from the message", mask, k)
+							}
+							// the same message as a CEA / DWR / DWA: the shape clauses of those structs
+							cea := new(CEA)
+							if err := mm.Unmarshal(cea); err == nil && (!verifListOK(cea.AcctApplicationID) || !verifListOK(cea.AuthApplicationID) || !verifGroupsOK(cea.VendorSpecificApplicationID)) {
+								fail("mask=%d k=%d: nil AVP in a CEA list", mask, k)
+							}
+							dwr := new(DWR)
+							if err := mm.Unmarshal(dwr); err == nil && dwr.OriginStateID != nil && dwr.OriginStateID.Data == nil {
+								fail("mask=%d k=%d: DWR Origin-State-Id without data", mask, k)
+							}
+							mm.Unmarshal(new(DWA))
+						}
+					}
+				}
+			}
+		}
+	}
+	fmt.Printf("BOUNDED-CASES %d\n", cases)
+	if fails > 0 {
+		t.Fail()
+	}
+}
+`
+
 // boundedChecks: the stand-ins that belong to a property.
 func (e *Engine) boundedChecks(prop string, r *extraResult) {
 	if prop == "C03" {
@@ -162,6 +325,31 @@ func (e *Engine) boundedChecks(prop string, r *extraResult) {
 		r.assumptions = append(r.assumptions, "recursion depth of DecodeGrouped is checked by bounded enumeration only")
 		return
 	}
+	if prop == "C11" || prop == "C12" || prop == "C13" {
+		out := e.runOverlayTest("diam/sm/smparser", unmarshalTest, "TestVerifBoundedUnmarshal")
+		var fails []string
+		cases := "0"
+		for _, l := range strings.Split(out, "\n") {
+			if strings.HasPrefix(l, "BOUNDED-FAIL ") {
+				fails = append(fails, strings.TrimPrefix(l, "BOUNDED-FAIL "))
+			}
+			if strings.HasPrefix(l, "BOUNDED-CASES ") {
+				cases = strings.TrimPrefix(l, "BOUNDED-CASES ")
+			}
+		}
+		ok := len(fails) == 0 && cases != "0"
+		detail := fmt.Sprintf("BOUNDED (not proved): the assumed contract of Message.Unmarshal for CER / CEA / DWR / DWA checked on the real reflection code over %s generated messages (presence combinations x application ids x Vendor-Specific group shapes x two orders, built through the API and after a wire round trip); failures: %v", cases, first(fails, 6))
+		if cases == "0" {
+			detail += " | the bounded test did not run: " + truncate(out, 600)
+		}
+		o := e.directObl("(*diam.Message).Unmarshal#bounded.the_assumed_contract_for_the_state_machine_structs", []string{"C11", "C12", "C13"}, ok, detail)
+		o.Res.Solver = "bounded enumeration"
+		o.Fails = fails
+		r.obls = append(r.obls, o)
+		bs, _ := r.coverage["bounded_stand_ins"].([]string)
+		r.coverage["bounded_stand_ins"] = append(bs, "Message.Unmarshal (reflection, outside the verifier's subset): its ASSUMED contract for the four state-machine structs checked over "+cases+" generated messages; labelled bounded, not counted as proved")
+		r.assumptions = append(r.assumptions, "Message.Unmarshal's contract for CER / CEA / DWR / DWA is assumed; it is checked by bounded enumeration only ("+cases+" messages)")
+	}
 	if prop != "C11" && prop != "C12" {
 		return
 	}
@@ -185,6 +373,7 @@ func (e *Engine) boundedChecks(prop string, r *extraResult) {
 	o.Res.Solver = "bounded enumeration"
 	o.Fails = fails
 	r.obls = append(r.obls, o)
-	r.coverage["bounded_stand_ins"] = []string{"sm.getLocalAddresses: " + cases + " enumerated endpoint forms (string / net parsing is outside the verifier's subset); labelled bounded, not counted as proved"}
+	bs0, _ := r.coverage["bounded_stand_ins"].([]string)
+	r.coverage["bounded_stand_ins"] = append(bs0, "sm.getLocalAddresses: " + cases + " enumerated endpoint forms (string / net parsing is outside the verifier's subset); labelled bounded, not counted as proved")
 	r.assumptions = append(r.assumptions, "sm.getLocalAddresses is checked by bounded enumeration only ("+cases+" endpoint forms); its contract is otherwise trusted")
 }
